@@ -266,9 +266,10 @@ fn two_arg(cfg: &Cfg, rep: &mut Report) {
             let me = Mutex::new(0.0);
             let steps = 4097u64;
             rep.merge(par_range(cfg, steps * ys.len() as u64, |i, r| {
-                let x = (i % steps) as f32 / (steps - 1) as f32;
+                // bases k/4096 in [0,1]; the first steps are replaced by tiny and subnormal bases
+                let k = i % steps;
+                let x = if k >= 1 && k <= 6 { [1e-45f32, 1e-40, 2.9e-39, 1.2e-38, 1e-30, 1e-10][(k - 1) as usize] } else { k as f32 / (steps - 1) as f32 };
                 let y = ys[(i / steps) as usize];
-                if bk == "mm" && x == 0.0 { return; }
                 check_powf(bk, f, x, y, b, r, &me);
             }));
             rep.set(&format!("max_err:{bk}:powf(x in [0,1])"), *me.lock().unwrap());
@@ -297,6 +298,59 @@ fn tri_cover(t: [(i32, i32); 3], r: &mut Report) {
         }
     }}
     if any_inside { r.nontrivial(); }
+}
+
+/// C04 in this float configuration: coverage of triangles given in units of 1/den px (den a power of two), offset by
+/// (ox, oy) whole pixels, against the exact edge-function oracle.
+fn tri_cover_den(t: [(i32, i32); 3], den: i32, off: (i32, i32), r: &mut Report) {
+    r.eval();
+    let tp = t.map(|(x, y)| (x + off.0 * den, y + off.1 * den));
+    let vs = tp.map(|(x, y)| vertex(pt3(x as f32 / den as f32, y as f32 / den as f32, 1.0), ()));
+    let mut covered = std::collections::BTreeSet::new();
+    let mut last: Option<usize> = None;
+    let mut order_ok = true;
+    let res = caught(|| tri_fill(vs, |sl| { if let Some(l) = last { if sl.y <= l { order_ok = false; } } last = Some(sl.y); for x in sl.xs.clone() { if !covered.insert((x as i128, sl.y as i128)) { order_ok = false; } } }));
+    let case = obj! {"kind" => "tri-den", "den" => den, "ox" => off.0, "oy" => off.1, "t" => t.iter().flat_map(|p| [p.0, p.1]).collect::<Vec<i32>>()};
+    if let Err(p) = res { r.violation(format!("fill-panic|{CFG_NAME}|{tp:?}/{den}"), format!("[{CFG_NAME}] tri_fill{tp:?}/{den} panicked: {p}"), case); return; }
+    if !order_ok { r.violation(format!("scanline-order|{CFG_NAME}|{tp:?}/{den}"), format!("[{CFG_NAME}] scanlines out of order or a pixel produced twice for {tp:?}/{den}"), case); return; }
+    let ti = tp.map(|(x, y)| (x as i128, y as i128));
+    let (x0, x1) = (tp.iter().map(|p| p.0).min().unwrap() / den - 1, tp.iter().map(|p| p.0).max().unwrap() / den + 2);
+    let (y0, y1) = (tp.iter().map(|p| p.1).min().unwrap() / den - 1, tp.iter().map(|p| p.1).max().unwrap() / den + 2);
+    let mut any_inside = false;
+    for j in y0 as i128..y1 as i128 { for i in x0 as i128..x1 as i128 {
+        let got = covered.contains(&(i, j));
+        match cover::classify(ti, den as i128, i, j, 0.001) {
+            cover::Cover::Inside => { any_inside = true; if !got { r.violation(format!("missing|{CFG_NAME}|{tp:?}/{den}"), format!("[{CFG_NAME}] triangle {tp:?}/{den}: pixel ({i},{j}) centre strictly inside but not covered"), case.clone()); return; } }
+            cover::Cover::Outside => { if got { r.violation(format!("extra|{CFG_NAME}|{tp:?}/{den}"), format!("[{CFG_NAME}] triangle {tp:?}/{den}: pixel ({i},{j}) centre strictly outside but covered"), case.clone()); return; } }
+            cover::Cover::Band => {}
+        }
+    }}
+    if covered.iter().any(|&(i, j)| i < x0 as i128 || i >= x1 as i128 || j < y0 as i128 || j >= y1 as i128) { r.violation(format!("extra|{CFG_NAME}|{tp:?}/{den}"), format!("[{CFG_NAME}] triangle {tp:?}/{den}: pixels far outside the bounding box covered"), case); return; }
+    if any_inside { r.nontrivial(); }
+}
+
+fn run_cover(cfg: &Cfg) -> ! {
+    let mut rep = Report::new();
+    rep.set("configuration", CFG_NAME);
+    // (a) the half-pixel lattice 0..4 px at the origin and shifted to (8, 200) and (1000, 700)
+    let n = 9u64;
+    let pts: Vec<(i32, i32)> = (0..n * n).map(|i| ((i % n) as i32, (i / n) as i32)).collect();
+    let np = pts.len() as u64;
+    for off in [(0, 0), (8, 200), (1000, 700)] {
+        rep.merge(par_range(cfg, np * np * np, |i, r| tri_cover_den([pts[(i % np) as usize], pts[(i / np % np) as usize], pts[(i / np / np) as usize]], 2, off, r)));
+    }
+    // (b) vertices 1/64 px above / below pixel-centre rows (halves a fraction of a pixel high that still contain a centre row),
+    //     at small and large y: x in {0, 1.5, 3, 4.5} px, y in {c - 1/64, c + 1/64, c + 1/2 + 1/64} for centre rows c = 0.5, 1.5
+    let xs = [0i32, 96, 192, 288];
+    let ys = [31i32, 33, 65, 95, 97, 129];
+    let thin: Vec<(i32, i32)> = ys.iter().flat_map(|&y| xs.iter().map(move |&x| (x, y))).collect();
+    let nt = thin.len() as u64;
+    for off in [(0, 0), (3, 8), (40, 200), (1000, 700)] {
+        rep.merge(par_range(cfg, nt * nt * nt, |i, r| tri_cover_den([thin[(i % nt) as usize], thin[(i / nt % nt) as usize], thin[(i / nt / nt) as usize]], 64, off, r)));
+    }
+    rep.sample(0, || obj! {"configuration" => CFG_NAME, "triangle_64ths" => vec![0, 31, 288, 33, 96, 97], "offset_px" => vec![40, 200]});
+    let rule = format!("configuration {CFG_NAME}: every ordered vertex triple of (a) the half-pixel lattice 0..4 px at offsets (0,0), (8,200), (1000,700) and (b) a lattice of vertices 1/64 px off pixel-centre rows at offsets (0,0), (3,8), (40,200), (1000,700), filled through this configuration's float backend; covered set == exact edge-function inside set outside the 0.001 px band, rows increasing, no pixel twice. non-trivial = >= 1 strictly inside centre.");
+    rep.finish(cfg, "exploration", &rule, &["exact i128 edge functions on dyadic coordinates"]);
 }
 
 fn tex_repeat(r: &mut Report) {
@@ -462,6 +516,7 @@ fn replay_case(case: &J, r: &mut Report) {
         "rem" => { let f: fn(f32, f32) -> f32 = match s("backend").as_str() { "fallback" => float::fallback::rem_euclid, #[cfg(feature = "cfg_mm")] "mm" => float::mm::rem_euclid, #[cfg(feature = "cfg_libm")] "libm" => float::libm::rem_euclid, _ => std::process::exit(2) }; check_rem(&s("backend"), f, fb("x"), fb("m"), r) }
         #[cfg(not(feature = "cfg_none"))]
         "xform" => xform_case(case.get("i").unwrap().as_u64().unwrap(), r),
+        "tri-den" => { let v: Vec<i32> = case.get("t").unwrap().as_arr().unwrap().iter().map(|x| x.as_i64().unwrap() as i32).collect(); let g = |k: &str| case.get(k).unwrap().as_i64().unwrap() as i32; tri_cover_den([(v[0], v[1]), (v[2], v[3]), (v[4], v[5])], g("den"), (g("ox"), g("oy")), r) }
         "color" => { let a = case.get("c").unwrap().as_arr().unwrap(); color_case([parse_fbits(&a[0]).unwrap(), parse_fbits(&a[1]).unwrap(), parse_fbits(&a[2]).unwrap()], r) }
         "tri" => { let v: Vec<i32> = case.get("t").unwrap().as_arr().unwrap().iter().map(|x| x.as_i64().unwrap() as i32).collect(); tri_cover([(v[0], v[1]), (v[2], v[3]), (v[4], v[5])], r) }
         "tex" => { let mut rr = Report::new(); tex_repeat(&mut rr); let want = format!("u={}|v={}", fb("u"), fb("v")); for (k, v) in rr.viols { if k.contains(&want) { r.violation(k, v.what, v.case); } } }
@@ -481,9 +536,10 @@ fn replay_case(case: &J, r: &mut Report) {
 
 fn main() {
     report::install_panic_hook();
-    let cfg = Cfg::from_args(|s| if s.starts_with("color") { "C16".into() } else if s.starts_with("xform") { "C09".into() } else { "C20".into() });
+    let cfg = Cfg::from_args(|s| if s.starts_with("color") { "C16".into() } else if s.starts_with("xform") { "C09".into() } else if s.starts_with("cover") { "C04".into() } else { "C20".into() });
     if cfg.replay.is_some() { replay_main(&cfg, replay_case); }
     if cfg.part.starts_with("color") { run_color(&cfg); }
+    if cfg.part.starts_with("cover") { run_cover(&cfg); }
     #[cfg(not(feature = "cfg_none"))]
     if cfg.part.starts_with("xform") { run_xform(&cfg); }
     let mut rep = Report::new();
